@@ -229,6 +229,10 @@ def _run_case(pid, tier, c, r, hs, hopts, out):
 def units(pid, tier):
     sp = trad_space(tier)
     idx = list(range(len(sp)))
+    if tier == "thorough":
+        # every state of the quick space (complete sweeps) and every third of the additional thorough states (values + partial sweeps):
+        # five executables per state make the full thorough space an hour of work on 16 cores
+        idx = [i for i in idx if full_sweeps_for(sp[i], tier) or i % 3 == 0]
     return [(pid, tier, idx[i:i + BATCH]) for i in range(0, len(idx), BATCH)]
 
 
@@ -255,7 +259,7 @@ def main(pid, tier):
              "every storage byte of every non-bool leaf, backgrounds 0x00/0xFF) for encode, exhaustive wire sweep for decode; "
              "each input executed on the standard-mode executable and on four -O executables; non-trivial = input not all zero",
         exhaustive=True,
-        bound="traditional subset of SING(%s) u COMB(2) u TREE(%d) u HOMONYMS; full sweeps for structs/buffers <= %d bytes (thorough: on the states of the quick space; partial sweeps on the others)" % (
+        bound="traditional subset of SING(%s) u COMB(2) u TREE(%d) u HOMONYMS; full sweeps for structs/buffers <= %d bytes (thorough: all states of the quick space with full sweeps + every third additional state with partial sweeps)" % (
             tier, 4 if tier == "quick" else 5, sweep_limit(tier)),
         go_part=dict(states=c["go_states"], evaluations=c["go_evaluations"],
                      note="Go -O Encode/Decode bodies interpreted by bpmc/gofront (typed evaluation) on EXH/BASIS values, a typed per-byte value sweep "
